@@ -1421,7 +1421,7 @@ int main(int argc, char** argv) {
     for (auto& c : load_corpus(argc > 4 ? argv[4] : NULL)) run_case(out, c.first, c.second);
     known_inputs(out);
     Rng g(seed);
-    long NC = thorough ? 10000 : 200, NS = thorough ? 5000 : 120;
+    long NC = thorough ? 6000 : 200, NS = thorough ? 3000 : 120;
     for (long i = 0; i < NC; i++) {
         CurveDesc d = gen_curve(g, out, thorough);
         run_curve(out, d);
